@@ -15,6 +15,7 @@ From Coba Require C10.Run.
 From Coba Require C04.Run.
 From Coba Require C06.Run.
 From Coba Require C19.Run.
+From Coba Require C07.Run.
 Open Scope Z_scope.
 
 Definition dispatch (op : Z) (x : sx) : sx :=
@@ -33,5 +34,6 @@ Definition dispatch (op : Z) (x : sx) : sx :=
   | 4 => C04.Run.run x
   | 6 => C06.Run.run x
   | 19 => C19.Run.run x
+  | 7 => C07.Run.run x
   | _ => err 98
   end.
